@@ -125,6 +125,9 @@ def _aliases_prf(flow, name, seen=None):
         if p is None and isinstance(rhs, ast.Call) and isinstance(rhs.func, ast.Attribute):
             # self.prf.get_parent_proof(id) / prf.find_item(...) hand out parts of the proof
             p = path_of(rhs.func.value)
+            # ... and so does a method of the state itself whose result is (or contains) such a part: self._locate_line(id)
+            if p == 'self' and rhs.func.attr in _PRF_RETURNING:
+                return True
         if p is None:
             continue
         root = p.split('.')[0].split('[')[0]
@@ -135,10 +138,30 @@ def _aliases_prf(flow, name, seen=None):
     return False
 
 
+_PRF_RETURNING = set()
+
+
+def _prf_returning_methods(cls):
+    """methods of the proof state that hand out a part of self.prf (directly or inside a tuple)"""
+    out = set()
+    for name, f in cls.methods.items():
+        flow = flow_of(f.node)
+        for r in ast.walk(f.node):
+            if isinstance(r, ast.Return) and r.value is not None:
+                for x in ast.walk(r.value):
+                    if isinstance(x, ast.Name) and _aliases_prf(flow, x.id):
+                        out.add(name)
+                    if isinstance(x, ast.Attribute) and (path_of(x) or '').startswith('self.prf'):
+                        out.add(name)
+    return out
+
+
 def mutating_methods(repo):
     """methods of ProofState that change the proof (directly or through other methods)"""
     cls = repo.cls(METHOD, 'ProofState')
     direct = set()
+    _PRF_RETURNING.clear()
+    _PRF_RETURNING.update(_prf_returning_methods(cls))
     for name, f in cls.methods.items():
         if name in ('__init__', '__copy__'):
             continue
@@ -517,31 +540,31 @@ def renumbering_rule(repo, rid):
 
         def is_selflen(e):
             return src(e, 60).replace(' ', '') == 'len(self.id)'
-        ifs = [n for n in walk_no_nested(f.node, include_root=False) if isinstance(n, ast.If)]
-        need(ifs, 'ItemID.%s: no case distinction found' % mname)
+        from ..astutil import comparison_holding
+        cfg = cfg_of(f.node)
+        # the answers that renumber: everything returned except the identifier itself
+        renum = [r for r in cfg.return_nodes() if r.ast.value is not None and not is_name(r.ast.value, 'self')]
+        need(renum, 'ItemID.%s: no result in the renumbering case' % mname)
         problems = []
-        length_tests = []
-        for c in ast.walk(ifs[0].test):
-            cp = compare_parts(c) if isinstance(c, ast.Compare) else None
-            if not cp:
-                continue
-            if is_selflen(cp[1]) and is_reflen(cp[2]):
-                length_tests.append((cp[0], c))
-            elif is_reflen(cp[1]) and is_selflen(cp[2]):
-                length_tests.append(({ast.LtE: ast.GtE, ast.Lt: ast.Gt, ast.GtE: ast.LtE, ast.Gt: ast.Lt}.get(cp[0], cp[0]), c))
-        for op, c in length_tests:
-            if op is not ast.GtE:
-                problems.append('the length test `%s` excludes the ids of the subproofs below a renumbered line' % src(c, 50))
+        length_tests = [t for t in cfg.test_nodes() if any((is_selflen(x) and is_reflen(y)) for _op, x, y in comparison_holding(t.ast, True))]
         if not length_tests:
             need(False, 'ItemID.%s: test on the length of the id not recognised' % mname)
-        # the rebuilt id keeps the remaining components: some return in the if-body contains the slice self.id[<reflen>:]
-        rets = [r for st in ifs[0].body for r in ast.walk(st) if isinstance(r, ast.Return) and r.value is not None]
-        need(rets, 'ItemID.%s: no result in the renumbering case' % mname)
-        for r in rets:
+        for t in length_tests:
+            for bnode, label in t.succ:
+                reach = cfg.reach_from([bnode])
+                if not any(r.id in reach for r in renum):
+                    continue
+                holds = [op for op, x, y in comparison_holding(t.ast, label == 'true') if is_selflen(x) and is_reflen(y)]
+                if not holds or holds[0] is not ast.GtE:
+                    problems.append('the length test `%s` (taken %s) excludes the ids of the subproofs below a renumbered line' % (src(t.ast, 50), label))
+        # the rebuilt id keeps the remaining components: the result contains the slice self.id[<reflen>:]
+        flow = flow_of(f.node)
+        for r in renum:
+            v = flow.inline(r.ast.value)
             keeps = any(isinstance(x, ast.Subscript) and isinstance(x.slice, ast.Slice) and x.slice.upper is None and x.slice.lower is not None and
-                        is_reflen(x.slice.lower) and src(x.value, 20) == 'self.id' for x in ast.walk(r.value))
+                        is_reflen(x.slice.lower) and src(x.value, 20) == 'self.id' for x in ast.walk(v))
             if not keeps:
-                problems.append('the result `%s` does not carry the components behind position len(%s.id) over' % (src(r.value, 50), ref))
+                problems.append('the result `%s` does not carry the components behind position len(%s.id) over' % (src(r.ast.value, 50), ref))
         res.add('kernel/proof.py :: ItemID.%s :: all-depths' % mname, not problems,
                 'ids at least as long as the reference id are renumbered and keep their remaining components' if not problems else
                 '; '.join(problems) + ' -- after the edit the lines of a moved subproof keep their old numbers and citations point at other lines',
